@@ -25,6 +25,7 @@ import (
 // sets; C10: judged by a twin tree populated identically).
 type histCase struct {
 	Steps   []histStep `json:"steps"`
+	Wide    int        `json:"wide_position_static_alternatives,omitempty"` // the history ends with this many static alternatives under /wide (plus a placeholder one), some of them constrained
 	RawPath bool       `json:"set_raw_path,omitempty"` // requests also carry URL.RawPath (valid non-canonical encoding of Path)
 }
 
@@ -395,6 +396,45 @@ func genHistCase(rng *rand.Rand, prop string) *histCase {
 			c.Steps = append(c.Steps, rq)
 		}
 	}
+	if rng.Intn(20) == 0 {
+		// drawn after everything else: a wide position at the end of the history - 9-24 static alternatives under one
+		// node (as leaves /wide/s<i> or as subtrees /wide/s<i>/t), a placeholder alternative among them, one to three of
+		// the static ones constrained; requests for the constrained ones with passing and failing headers (a failing
+		// constraint hands the request to the placeholder alternative, however many static neighbours there are)
+		nst := 9 + rng.Intn(16)
+		tail := []string{"", "/t"}[rng.Intn(2)]
+		meth := "GET"
+		base := 0
+		for _, st := range c.Steps {
+			if st.Op == "route" {
+				base++
+			}
+		}
+		at := rng.Intn(nst + 1)
+		var refs []int
+		for i := 0; i <= nst; i++ {
+			if i == at {
+				c.Steps = append(c.Steps, histStep{Op: "route", Method: meth, Route: "/wide/{wx}" + tail})
+				continue
+			}
+			k := i
+			if i > at {
+				k = i - 1
+			}
+			c.Steps = append(c.Steps, histStep{Op: "route", Method: meth, Route: fmt.Sprintf("/wide/s%d%s", k, tail)})
+			refs = append(refs, base+i)
+		}
+		for n := 1 + rng.Intn(3); n > 0; n-- {
+			j := rng.Intn(len(refs))
+			ps := genPairs(rng)
+			c.Steps = append(c.Steps, histStep{Op: "headers", Ref: refs[j], Pairs: ps})
+			for q := 2 + rng.Intn(4); q > 0; q-- {
+				c.Steps = append(c.Steps, histStep{Op: "req", Method: meth, Path: core.B(fmt.Sprintf("/wide/s%d%s", j, tail)), Hdr: genReqHeaders(rng, ps)})
+			}
+			c.Steps = append(c.Steps, histStep{Op: "req", Method: meth, Path: core.B(fmt.Sprintf("/wide/s%d%s", rng.Intn(nst), tail)), Hdr: genReqHeaders(rng, ps)})
+		}
+		c.Wide = nst
+	}
 	if rng.Intn(4) == 0 {
 		// drawn last, so that everything else about a history is what it was before: method lists are spelled in
 		// lower or mixed case from their second item on ("GET,post", "POST,Get,head") - Routes() registers the
@@ -495,6 +535,7 @@ func runHist(r *core.Run, prop string) {
 		r.GateCounter("requests-with-repeated-header-lines", 50)
 		r.GateCounter("same-request-served-again-after-header-edit", 50)
 		r.GateCounter("method-list-spelled-in-mixed-case", 200)
+		r.GateCounter("histories-with-a-wide-position", 100)
 	} else {
 		r.Gate("distinct_nontrivial", r.NonTrivialCount(), 5000)
 		r.GateCounter("requests-compared", int64(n)*4)
@@ -542,6 +583,9 @@ func consPass(cons map[string]*regexp.Regexp, h http.Header) bool {
 func judgeHist(w *core.W, c *histCase, prop string) {
 	parser := parserOf(w)
 	f := flamego.NewWithLogger(io.Discard)
+	if c.Wide > 0 {
+		w.Count("histories-with-a-wide-position")
+	}
 	drift := ""
 	if len(c.Steps)%2 == 0 {
 		// a middleware that reads the bind parameters again after Next(): they stay the request's while it is served,
